@@ -239,8 +239,16 @@ pub fn run(ws: &[&str]) -> String {
                     };
                     let doc = serde_json::json!({"device_code": dc, "user_code": "u", "verification_uri": "https://v/", "expires_in": 100000, "interval": 0});
                     let details: StandardDeviceAuthorizationResponse = serde_json::from_value(doc).unwrap();
-                    let mut req = client.exchange_device_access_token(&details);
-                    for (k, v) in extras.iter() {
+                    // builder calls in a mixed order: extras before and after set_time_fn /
+                    // set_max_backoff_interval (set_time_fn rebuilds the whole request value)
+                    let req = client.exchange_device_access_token(&details);
+                    let half = extras.len() / 2 + extras.len() % 2;
+                    let mut req = req;
+                    for (k, v) in extras.iter().take(half) {
+                        req = req.add_extra_param(k.clone(), v.clone());
+                    }
+                    let mut req = req.set_time_fn(chrono::Utc::now).set_max_backoff_interval(Duration::from_secs(7));
+                    for (k, v) in extras.iter().skip(half) {
                         req = req.add_extra_param(k.clone(), v.clone());
                     }
                     if asyncv {
